@@ -188,8 +188,9 @@ def handle(req):
     return key, detail, stats, pyhex
 
 
-def example_message():
-    """message.py's own documentation example (the test stub under __main__), verbatim."""
+def example_message(data_as_bytes=False):
+    """message.py's own documentation example (the test stub under __main__), verbatim; with data_as_bytes the items of
+    the user-typed field are bytes objects instead of str (the verbatim form trips a size-accounting defect of message.py)."""
     tm = message.Message(666)
     tm.PutBool("bool", [True, False])
     tm.PutInt8("int8", [8, 9, 10])
@@ -201,7 +202,7 @@ def example_message():
     tm.PutDouble("double", [2.7172, 3.4, 5.6, -1.0])
     tm.PutPoint("point", [(6.5, 7.5), (9, 10), (11, 15)])
     tm.PutRect("rect", [(9.1, 10, 11, 12.5), (1, 2, 3, 4), (2, 3, 4, 5)])
-    tm.PutFieldContents("data", 555, ["testing...", "stuff", "out"])
+    tm.PutFieldContents("data", 555, [b"testing...", b"stuff", b"out"] if data_as_bytes else ["testing...", "stuff", "out"])
     tm.CPutBool("cbooltrue", True)
     tm.CPutBool("cboolfalse", False)
     tm.CPutString("cstring", "")
@@ -232,7 +233,7 @@ def wire_main():
         except Exception as e:
             sys.stderr.write('HARNESS-ABORT: unreadable request line: %r\n' % e); sys.stderr.flush(); os._exit(2)
         if req.get('cmd') == 'example':
-            tm = example_message()
+            tm = example_message(bool(req.get('data_as_bytes')))
             out.write('E\t%s\t%d\n' % (tm.GetFlattenedBuffer().hex(), tm.FlattenedSize())); out.flush(); continue
         key, detail, stats, pyhex = handle(req)
         out.write('R\t%s\t%s\t%s\t%s\t%s\n' % (req.get('case', -1), key or '-', clean(detail)[:3000] or '-',
